@@ -305,6 +305,12 @@ func (r *Report) ViolationCount() int {
 
 // Broken ends the run because the check itself cannot be trusted.
 func (r *Report) Broken(format string, a ...interface{}) {
+	if r.ViolationCount() > 0 && r.replay == nil {
+		// the harness cannot go on, but what it has found so far stands: report that (the run counts as capped)
+		fmt.Printf("NOTE property=%s the check stopped early: %s\n", r.ID, fmt.Sprintf(format, a...))
+		r.Capped("stopped early: " + fmt.Sprintf(format, a...))
+		r.Finish()
+	}
 	fmt.Printf("CHECK-BROKEN property=%s %s\n", r.ID, fmt.Sprintf(format, a...))
 	os.Exit(2)
 }
@@ -389,6 +395,10 @@ func (r *Report) RunWorkers(n int, extraArgs ...string) {
 			cmd.Stderr = os.Stderr
 			cmd.WaitDelay = 5 * time.Second
 			out, err := cmd.Output()
+			if ctx.Err() == context.DeadlineExceeded && !bytes.Contains(out, []byte("PARTIAL {")) {
+				// stopped by the limit above without having reported (an overloaded machine): the shard counts as not explored
+				out = append(out, []byte(fmt.Sprintf("\nPARTIAL {\"exhaustive\":false,\"capped\":\"worker %d was stopped three minutes after the deadline without a report; its shard counts as not explored\"}\n", k))...)
+			}
 			cancel()
 			ch <- res{k, out, err}
 		}(k)
